@@ -1,6 +1,6 @@
 import extract
 import callgraph
-from rules import c01, recursion, common
+from rules import c01, recursion, bufbudget, common
 
 # entry points whose recursion is driven by user-shaped data (reader, writer, equal?, eval, strip)
 C01_RECURSION_ROOTS = ["sexp_read_op", "sexp_write_op", "sexp_equalp_op", "sexp_eval_op", "sexp_analyze",
@@ -19,6 +19,7 @@ def run(res, tier, replay=None):
     c01.run_d(prog, res)
     c01.run_g(prog, res)
     c01.run_c1(prog, res)
+    bufbudget.run(prog, res, "C01", "C01.h", {"sexp.c"}, floor=2)
     if tier == "thorough":
         flt = c01.scope_filter()
         common.thorough_mutations(res, "C01", {
@@ -28,6 +29,7 @@ def run(res, tier, replay=None):
             "C01.a": lambda p, r: c01.run_a(p, r),
             "C01.d": lambda p, r: c01.run_d(p, r),
             "C01.c1": lambda p, r: c01.run_c1(p, r),
+            "C01.h": lambda p, r: bufbudget.run(p, r, "C01", "C01.h", {"sexp.c"}, floor=0),
         })
     res.assumptions = common.ASSUMPTIONS
     res.explanation = (
